@@ -757,13 +757,35 @@ impl SubCheck for TaskSeqSub {
         "sequential-api"
     }
     fn strategy(&self) -> BoxedStrategy<SeqCase> {
-        (
+        let normal = (
             any::<bool>(),
             proptest::collection::vec(step_strategy(), 0..8),
             proptest::collection::vec(op_strategy(), 0..30),
         )
-            .prop_map(|(with_promise, script, ops)| SeqCase { with_promise, script, ops })
-            .boxed()
+            .prop_map(|(with_promise, script, ops)| SeqCase { with_promise, script, ops });
+        // a future that wakes itself in every one of 40-150 consecutive polls (one Runnable::run
+        // call polls it again and again in place), then behaves like a generated one
+        let long = (
+            any::<bool>(),
+            40usize..150,
+            any::<u8>(),
+            proptest::collection::vec(step_strategy(), 0..5),
+            proptest::collection::vec(op_strategy(), 0..12),
+        )
+            .prop_map(|(with_promise, n, pat, tail, more)| {
+                let mut script: Vec<Step> = (0..n)
+                    .map(|i| Step {
+                        acts: vec![if (i as u8).wrapping_mul(pat | 1) % 5 == 0 { InPoll::WakeSelfVal } else { InPoll::WakeSelfRef }],
+                        ready: false,
+                        panic: false,
+                    })
+                    .collect();
+                script.extend(tail);
+                let mut ops = vec![Op::Run];
+                ops.extend(more);
+                SeqCase { with_promise, script, ops }
+            });
+        prop_oneof![14 => normal, 1 => long].boxed()
     }
     fn eval(&self, c: &SeqCase) -> Verdict {
         super::note_case("C13", self.name(), c);
